@@ -2,7 +2,11 @@
 # usage: tools/seedtest.sh <patch> <Cxx> [<Cxx>...]   — applies a seeded change to /repo, runs the checks, always reverts.
 patch="$1"; shift
 out=$(mktemp)
-trap 'git -C /repo checkout -- . ; rm -f "$out"' EXIT
+# the evidence files are rewritten by every check run: the ones a run against a seeded change writes are not evidence about
+# /repo and are discarded (the committed ones must come from the unchanged tree)
+ev=$(mktemp -d)
+cp -a /verif/evidence/. "$ev"/
+trap 'git -C /repo checkout -- . ; rm -rf /verif/evidence; mkdir -p /verif/evidence; cp -a "$ev"/. /verif/evidence/; rm -rf "$out" "$ev"' EXIT
 trap '' PIPE
 git -C /repo apply --check "$patch" || { echo "patch does not apply"; exit 3; }
 git -C /repo apply "$patch"
